@@ -5,6 +5,7 @@ from core import OracleResult
 import impl, cfg1d, cfg2d
 from layers.fvm1d import layer_rhs1d
 from layers.lim import layer_lim
+from layers.fvm2d import layer_rhs2d
 
 MODULE = 'Flowdyn.Props.C11'
 THEOREMS = core.theorems_in(['C11.lean'], 'Flowdyn.C11') + ['Flowdyn.rhs_periodic_uniform_eq_cyc']
@@ -17,7 +18,7 @@ KAPPA = {'extrapol2': -1.0, 'fromm': 0.0, 'quick': 0.5, 'extrapol3': 1.0 / 3.0, 
 
 
 def layers(ctx):
-    return [layer_rhs1d, layer_lim]
+    return [layer_rhs1d, layer_lim, layer_rhs2d]
 
 
 def stencil_matrix(kappa, a, n, h):
@@ -126,28 +127,30 @@ def oracle(ctx, seeds=None):
             res.fail('2d-stencil:raised', out, rp); continue
         pL, pR, pd = out
         km, kp = ((1 - kap) / 4, (1 + kap) / 4) if not first else (0.0, 0.0)
-        d = pd[0].reshape(ny, nx)
-        # interior x-faces of row j: face index j*(nx+1)+i between cells i-1 and i
+        fields = [('rho', pd[0], pL[0], pR[0]), ('u', pd[1][0], pL[1][0], pR[1][0]), ('v', pd[1][1], pL[1][1], pR[1][1]), ('p', pd[2], pL[2], pR[2])]
         badk = None
-        for j in range(ny):
-            for ii in range(1, nx):
-                fidx = j * (nx + 1) + ii
-                c = lambda k: d[j, k % nx]
-                Lx = c(ii - 1) + km * (c(ii - 1) - c(ii - 2)) + kp * (c(ii) - c(ii - 1))
-                Rx = c(ii) - km * (c(ii + 1) - c(ii)) - kp * (c(ii) - c(ii - 1))
-                if abs(pL[0][fidx] - Lx) > 1e-12 or abs(pR[0][fidx] - Rx) > 1e-12:
-                    badk = ('x', j, ii)
         fs = ny * (nx + 1)
-        for jj in range(1, ny):
-            for ii in range(nx):
-                fidx = fs + jj * nx + ii
-                c = lambda k: d[k % ny, ii]
-                Ly = c(jj - 1) + km * (c(jj - 1) - c(jj - 2)) + kp * (c(jj) - c(jj - 1))
-                Ry = c(jj) - km * (c(jj + 1) - c(jj)) - kp * (c(jj) - c(jj - 1))
-                if abs(pL[0][fidx] - Ly) > 1e-12 or abs(pR[0][fidx] - Ry) > 1e-12:
-                    badk = ('y', jj, ii)
+        for fname, dd, fL, fR in fields:
+            d = dd.reshape(ny, nx)
+            # interior x-faces of row j: face index j*(nx+1)+i between cells i-1 and i
+            for j in range(ny):
+                for ii in range(1, nx):
+                    fidx = j * (nx + 1) + ii
+                    c = lambda k: d[j, k % nx]
+                    Lx = c(ii - 1) + km * (c(ii - 1) - c(ii - 2)) + kp * (c(ii) - c(ii - 1))
+                    Rx = c(ii) - km * (c(ii + 1) - c(ii)) - kp * (c(ii) - c(ii - 1))
+                    if abs(fL[fidx] - Lx) > 1e-12 or abs(fR[fidx] - Rx) > 1e-12:
+                        badk = ('x', fname, j, ii)
+            for jj in range(1, ny):
+                for ii in range(nx):
+                    fidx = fs + jj * nx + ii
+                    c = lambda k: d[k % ny, ii]
+                    Ly = c(jj - 1) + km * (c(jj - 1) - c(jj - 2)) + kp * (c(jj) - c(jj - 1))
+                    Ry = c(jj) - km * (c(jj + 1) - c(jj)) - kp * (c(jj) - c(jj - 1))
+                    if abs(fL[fidx] - Ly) > 1e-12 or abs(fR[fidx] - Ry) > 1e-12:
+                        badk = ('y', fname, jj, ii)
         if badk:
-            res.fail('2d-stencil:%s' % badk[0], "2D %s-direction face states differ from the kappa=%r formula at %r (nx=%d ny=%d)" % (badk[0], kap, badk, nx, ny), rp)
+            res.fail('2d-stencil:%s:%s' % (badk[0], 'vector' if badk[1] in 'uv' else 'scalar'), "2D %s-direction face states differ from the kappa=%r formula at %r (nx=%d ny=%d)" % (badk[0], kap, badk, nx, ny), rp)
     return res
 
 
